@@ -742,7 +742,7 @@ fn arg_classes(m: &Model, op: &Op) -> String {
                 P::Any => "any",
                 P::S(_) => "stream",
             };
-            let c = match (m.validity(params[k], *a), a) {
+            let c = match (validity_for(m, op.f, k, params[k], *a), a) {
                 (Validity::Valid, _) => "valid".to_string(),
                 (Validity::Unknown, _) => "unknown-status".to_string(),
                 (Validity::NullNoop, _) => "null".to_string(),
@@ -753,6 +753,15 @@ fn arg_classes(m: &Model, op: &Op) -> String {
         })
         .collect::<Vec<_>>()
         .join(",")
+}
+
+/// Validity of argument `k` of `f`, taking documented optional pointers into account:
+/// `c2pa_builder_sign_data_hashed_embeddable`'s `asset` stream "may be NULL to use pre calculated hashes".
+fn validity_for(m: &Model, f: F, k: usize, p: P, a: A) -> Validity {
+    if f == F::BuilderSignDataHashed && k == 2 && a == A::Null {
+        return Validity::Valid;
+    }
+    m.validity(p, a)
 }
 
 /// Execute one op against the library, judge it against the model, update the model.
@@ -776,8 +785,8 @@ unsafe fn exec(env: &Env, m: &mut Model, op: &Op, judge: bool) -> Verdicts {
     let mut dead_ctx: Vec<*mut Cursor<Vec<u8>>> = vec![];
     let mut raw_args = vec![];
     let mut validity = vec![];
-    for (p, a) in params.iter().zip(op.args.iter()) {
-        validity.push(m.validity(*p, *a));
+    for (k, (p, a)) in params.iter().zip(op.args.iter()).enumerate() {
+        validity.push(validity_for(m, op.f, k, *p, *a));
         let content = if let P::S(c) = p { *c } else { Content::Empty };
         raw_args.push(match a {
             A::Slot(i) => m.live.get(*i as usize).map(|h| h.addr).unwrap_or(0),
